@@ -24,11 +24,24 @@ def _init_obs(f):
     return [len(f.vData) if _within(f) else -1, f.nHashFuncs, f.nTweak, f.nFlags]
 
 
+def _peek(f):
+    """Reading the wire form of the live object is an observation without effect in the MODEL; doing it
+    before every step keeps any memo of the wire form warm, so a stale one shows at the next round trip
+    (seeded change C20-17).  Out-of-range fields make serialize() raise: not this step's answer."""
+    try:
+        f.serialize()
+    except Exception:  # noqa
+        pass
+
+
 def _history(f, ops):
     import vals
     init = _init_obs(f)
     answers = []
+    peek = len(ops) % 4 != 3          # one history in four keeps the schedule without the extra reads
     for o in ops:
+        if peek:
+            _peek(f)
         try:
             k = o[0]
             if k == 0:
